@@ -2,6 +2,7 @@
 //! Written from the language documentation; shares no code with the implementation under test.
 
 pub mod ext;
+pub mod policy;
 
 use std::collections::{BTreeMap, BTreeSet};
 
